@@ -84,15 +84,30 @@ def rand_text(rng: random.Random, lo: int = 1, hi: int = 8) -> str:
     return "".join(rng.choice(ADV) for _ in range(rng.randrange(lo, hi)))
 
 
+def norm_parts(parts: List[Any]) -> List[Any]:
+    """What a scaled value string holds for these parts: adjacent strings merged, empty strings dropped - and every
+    number kept, whatever its value (written here independently of ScaledValueString.__init__)."""
+    out: List[Any] = []
+    for p in parts:
+        if isinstance(p, str) and out and isinstance(out[-1], str):
+            out[-1] += p
+        else:
+            out.append(p)
+    return [p for p in out if not (isinstance(p, str) and p == "")]
+
+
 def rand_svs_json(rng: random.Random) -> List[Any]:
-    from recipe_grid.scaled_value_string import ScaledValueString as SVS
     n = rng.choice((1, 1, 1, 2, 3, 4))
     parts: List[Any] = []
     for _ in range(n):
-        parts.append(G.rand_number(rng) if rng.random() < 0.25 else rand_text(rng))
+        if rng.random() < 0.25:
+            # zero in every number type is a number like any other ("cola with 0 sugars", "mark 0.0", 0/4)
+            parts.append(rng.choice((0, 0.0, Fraction(0, 4))) if rng.random() < 0.3 else G.rand_number(rng))
+        else:
+            parts.append(rand_text(rng))
     if not any(isinstance(p, str) and p for p in parts) and rng.random() < 0.8:
         parts.append(rand_text(rng))
-    return ser.svs_json(SVS(parts))
+    return [p if isinstance(p, str) else coqio.num_json(p) for p in norm_parts(parts)]
 
 
 def rand_quantity_json(rng: random.Random) -> Any:
@@ -375,6 +390,78 @@ def cell_value_term(v: Any) -> str:
     return f"(Reference {srt} {coqio.nat(v.output_index)} {ser.amount(v.amount)})"
 
 
+def jsvs_term(j: List[Any]) -> str:
+    parts = [f"PStr {coqio.string(p)}" if isinstance(p, str) else f"PNum {coqio.num(coqio.num_unjson(p))}" for p in j]
+    return coqio.lst(parts, "part")
+
+
+def jamount_term(a: Any) -> str:
+    if "q" in a:
+        v, u, sp, pr = a["q"]
+        return (f"(AQty (mkQ {coqio.num(coqio.num_unjson(v))} {coqio.opt(coqio.string(u) if u is not None else None, 'str')} "
+                f"{coqio.string(sp)} {coqio.string(pr)}))")
+    v, pc, w, pr = a["p"]
+    if v is None:
+        return f"(AProp (PropRem {coqio.string(w)} {coqio.string(pr)}))"
+    return f"(AProp (PropVal {coqio.num(coqio.num_unjson(v))} {coqio.boolean(bool(pc))} {coqio.string(pr)}))"
+
+
+def jcell_term(j: Any) -> str:
+    """The node of a cell as WRITTEN in the case input (JSON), without the parts render_cell does not look at."""
+    dummy = "(Ingredient (@nil part) (@None quantity))"
+    if "I" in j:
+        q = j["I"][1]
+        qt = "(@None quantity)" if q is None else "(Some " + jamount_term(q)[len("(AQty "):-1] + ")"
+        return f"(Ingredient {jsvs_term(j['I'][0])} {qt})"
+    if "S" in j:
+        return f"(Step {jsvs_term(j['S'][0])} (@nil node))"
+    if "SR" in j:
+        return f"(SubRecipe {dummy} {coqio.lst([jsvs_term(n) for n in j['SR'][1]], 'svs')} {coqio.boolean(j['SR'][2])})"
+    sr = j["R"][0]
+    srt = f"(SubRecipe {dummy} {coqio.lst([jsvs_term(n) for n in sr['SR'][1]], 'svs')} {coqio.boolean(sr['SR'][2])})"
+    return f"(Reference {srt} {coqio.nat(j['R'][1])} {jamount_term(j['R'][2])})"
+
+
+def jsvs_visible(j: List[Any]) -> str:
+    return "".join(p if isinstance(p, str) else fmt_visible(coqio.num_unjson(p)) for p in j)
+
+
+def jamount_visible(a: Any) -> str:
+    if a is None:
+        return ""
+    if "q" in a:
+        v, u, sp, pr = a["q"]
+        return fmt_visible(coqio.num_unjson(v)) + ((sp + u) if u is not None else "") + pr + " "
+    v, pc, w, pr = a["p"]
+    if v is None:
+        return w + pr + " "
+    val = coqio.num_unjson(v)
+    if val == 1.0:
+        return ""
+    return fmt_visible(val * 100 if pc else val) + pr.replace("*", "\u00d7") + " "
+
+
+def jcell_visible(j: Any) -> str:
+    """The text a reader must see in the cell, from the case input alone."""
+    if "I" in j:
+        return jamount_visible(j["I"][1]) + jsvs_visible(j["I"][0])
+    if "S" in j:
+        return jsvs_visible(j["S"][0])
+    if "R" in j:
+        return jamount_visible(j["R"][2]) + jsvs_visible(j["R"][0]["SR"][1][j["R"][1]])
+    return " ".join(jsvs_visible(n) for n in j["SR"][1])
+
+
+def json_by_object(tree: Any, j: Any, out: Dict[int, Any]) -> None:
+    """id(node object) -> the JSON it was built from (drawn nodes only)."""
+    out[id(tree)] = j
+    if "S" in j:
+        for o, k in zip(tree.inputs, j["S"][1]):
+            json_by_object(o, k, out)
+    elif "SR" in j:
+        json_by_object(tree.sub_tree, j["SR"][0], out)
+
+
 def cells_case(inp: Dict[str, Any]) -> Case:
     from recipe_grid.renderer.html import render_recipe_tree
     from recipe_grid.renderer.recipe_to_table import recipe_tree_to_table
@@ -398,6 +485,17 @@ def cells_case(inp: Dict[str, Any]) -> Case:
         viol = oracle(tree, prefix, out, tw, [c for r in rows for c in r])
     else:
         viol = f"render_recipe_tree raised {co}"
+    # expectations from the case input itself (not from the constructed objects): model input and visible text
+    jmap: Dict[int, Any] = {}
+    json_by_object(tree, inp["tree"], jmap)
+    if out is not None and viol is None:
+        texts = td_texts(parse_html(out))
+        for got, c in zip(texts, [c for r in rows for c in r]):
+            w = jcell_visible(jmap[id(c.value)])
+            if collapse(got) != collapse(w):
+                viol = f"visible text of a cell is {collapse(got)!r}, the recipe as written says {collapse(w)!r}"
+                break
+    cell_value_term = lambda v: jcell_term(jmap[id(v)])          # noqa: E731  (shadows the object-based encoder)
     rows_t = coqio.lst([coqio.lst([
         f"(mkHCell {cell_value_term(c.value)} {coqio.n_(c.rows)} {coqio.n_(c.columns)} {BORDER[c.border_left.name]} "
         f"{BORDER[c.border_right.name]} {BORDER[c.border_top.name]} {BORDER[c.border_bottom.name]})" for c in r],
@@ -411,6 +509,8 @@ def cells_case(inp: Dict[str, Any]) -> Case:
             tags.append("cells:" + tg)
     if out is not None and "rg-quantity-conversions" in out:
         tags.append("cells:alt-unit-list")
+    if re.search(r"\{'(int|float)': '(0|0x0\.0p\+0)'\}|\{'frac': \['0'", str(inp["tree"])):
+        tags.append("cells:zero-in-text")
     return Case(input={"suite": "cells", **inp}, coq_in=cin, coq_out=co, impl=out, violation=viol,
                 nontrivial=bool(re.search(r"[^A-Za-z0-9 ]", blob)), tags=tags)
 
@@ -468,7 +568,8 @@ def tfun_case(tag: str, body: Optional[str], attrs: List[Tuple[str, str]]) -> Ca
 
 # ---------------------------------------------------------------- suite: sitesinks (titles, breadcrumbs, list entries, hrefs)
 
-SITE_TITLES = ["Tikka & Masala", "It's \"good\"", "x > y", "a < b", "R&D \"q\" 'single'", "50 # hash", "semi; colon=",
+SITE_TITLES = ["Cre\u0300me bru\u0302le\u0301e", "\u212bngstro\u0308m", "5 \u2126 resistor soup", "\u212aelvin 0",
+               "\uf900 \ufa10 ideographs", "Tikka & Masala", "It's \"good\"", "x > y", "a < b", "R&D \"q\" 'single'", "50 # hash", "semi; colon=",
                "back\\slash", "日本のカレー", "Crème brûlée",
                "\U0001F35D pasta", "&amp; entity", "&lt;b&gt;", "</title><script>x</script>".replace("<", "＜").replace(">", "＞"),
                "&amp;lt;i&amp;gt; literal", "AT&amp;amp;T", "&amp;#65; ref",      # entity-LIKE text: must be decoded exactly once
@@ -680,6 +781,15 @@ def md_quote(x: str) -> str:
     return '"' + x.replace("\\", "\\\\").replace('"', '\\"') + '"'
 
 
+def md_heading(rng: random.Random) -> str:
+    r = rng.random()
+    if r < 0.25:
+        return rng.choice(EMPTY_HEADINGS)
+    if r < 0.5:
+        return "# " + rng.choice(NON_NFC_TITLES)
+    return "# Title for 2"
+
+
 def gen_md_doc(rng: random.Random) -> str:
     """A Markdown recipe whose ingredient, step and output names and free-form units hold backslashes etc."""
     pick = lambda: md_quote(rng.choice(MD_STRINGS) + rng.choice(["", " ", "x"]) + rng.choice(MD_STRINGS))
@@ -688,7 +798,7 @@ def gen_md_doc(rng: random.Random) -> str:
              f"{out2}, {pick()} := {pick()}(3 {pick()})",
              f"{pick()}(1/2 of the {out1}, {out2}, {pick()})",
              f"{pick()}(rest of the {out1}, 100g {pick()})"]
-    return "# Title for 2\n\nProse with a back\\\\slash.\n\n```recipe\n" + "\n".join(lines) + "\n```\n"
+    return md_heading(rng) + "\n\nProse with a back\\\\slash.\n\n```recipe\n" + "\n".join(lines) + "\n```\n"
 
 
 def md_case(doc: str, scale: Any = 1) -> Optional[Case]:
@@ -717,8 +827,19 @@ def md_case(doc: str, scale: Any = 1) -> Optional[Case]:
                 for tree in r.scale(scale).recipe_trees:
                     for row in recipe_tree_to_table(tree).cells:
                         want += [cell_visible(x.value) for x in row if isinstance(x, Cell)]
-        got = td_texts(parse_html(page))
-        if len(got) != len(want):
+        toks = parse_html(page)
+        heading = doc.split("\n", 1)[0]
+        h1 = _element_text(toks, "h1")
+        if PLACEHOLDER_RE.search("".join(x[1] for x in toks if x[0] == "text")):
+            viol = "an internal placeholder (%XXXX...%) is visible in the rendered document"
+        elif not any(x[0] == "start" and x[1] == "header" for x in toks):
+            viol = "the <header> wrapper of the title is missing"
+        elif heading in EMPTY_HEADINGS and ((h1 or "").strip() != "" or m.title != ""):
+            viol = f"empty heading {heading!r}: title {m.title!r}, <h1> reads {h1!r}"
+        elif heading[2:] in NON_NFC_TITLES and (h1 != heading[2:] or m.title != heading[2:]):
+            viol = f"heading {heading[2:]!r}: title {m.title!r}, <h1> reads {h1!r}"
+        got = td_texts(toks)
+        if viol is None and len(got) != len(want):
             viol = f"{len(got)} td elements for {len(want)} cells"
         for g, w in zip(got, want):
             if collapse(g) != collapse(w) and viol is None:
@@ -729,14 +850,28 @@ def md_case(doc: str, scale: Any = 1) -> Optional[Case]:
 
 # ---------------------------------------------------------------- standalone pages (generate_standalone_page)
 
-TITLE_BASES = ["Mac & cheese", "It's \"good\"", "x > y", "a < b", "R&D \"q\" 'single'", "Tikka &amp; Masala", "&lt;b&gt;bold",
+# titles that are NOT in Unicode normalisation form C: decomposed accents, ANGSTROM / OHM / KELVIN SIGN, CJK
+# compatibility ideographs (must reach the page code point by code point)
+NON_NFC_TITLES = ["Cre\u0300me bru\u0302le\u0301e", "\u212bngstro\u0308m", "5 \u2126 resistor soup", "\u212aelvin 0", "\uf900 \ufa10 ideographs"]
+TITLE_BASES = NON_NFC_TITLES + ["Mac & cheese", "It's \"good\"", "x > y", "a < b", "R&D \"q\" 'single'", "Tikka &amp; Masala", "&lt;b&gt;bold",
                "Crème brûlée", "日本のカレー", "back\\\\slash", "Plain", "Mezze", "Thali", "餃子", "&amp;amp; twice"]
 # (suffix as written, is it a serving count the documentation recognises?)  Only ASCII digits are a count.
 TITLE_SUFFIXES = [("", False), (" for 2", True), (" serves 3", True), (" for ٣", False), (" serves ४", False),
                   (" for ２", False), (" to serve ६", False), (" makes ١٢", False)]
 
 
+EMPTY_HEADINGS = ["#", "# ", "# &#32;", "# &nbsp;", "#  #"]
+PLACEHOLDER_RE = re.compile(r"%[A-Z]{32}%")
+
+
 def gen_standalone(rng: random.Random) -> Dict[str, Any]:
+    if rng.random() < 0.12:
+        # an EMPTY title: the heading is captured as the title '' (header and <title> present, both empty)
+        h = rng.choice(EMPTY_HEADINGS)
+        ing = md_quote(rng.choice(MD_STRINGS) + " flour")
+        scale = rng.choice([None, 2, Fraction(1, 2)])
+        return {"doc": f"{h}\n\nSome prose.\n\n    100g {ing}\n    2 eggs\n", "base": "", "suffix": "", "counted": False,
+                "heading": h, "scale": coqio.num_json(scale) if scale is not None else None}
     base = rng.choice(TITLE_BASES)
     suffix, counted = rng.choice(TITLE_SUFFIXES)
     ing = md_quote(rng.choice(MD_STRINGS) + " flour")
@@ -787,7 +922,10 @@ def standalone_case(inp: Dict[str, Any]) -> Case:
     raw_title = ""
     try:
         page = _standalone(st["doc"], scale)
-        twin_doc = st["doc"].replace("# " + st["base"] + st["suffix"], "# Plain" + (st["suffix"] if st["counted"] else " words"), 1)
+        if st.get("heading") is not None:
+            twin_doc = "# Plain words" + st["doc"][len(st["heading"]):]
+        else:
+            twin_doc = st["doc"].replace("# " + st["base"] + st["suffix"], "# Plain" + (st["suffix"] if st["counted"] else " words"), 1)
         twin_page = _standalone(twin_doc, scale)
     except Exception as e:
         page = twin_page = ""
@@ -801,7 +939,11 @@ def standalone_case(inp: Dict[str, Any]) -> Case:
             viol = "element structure of the standalone page differs from the structure for a plain alphabetic title"
         elif tt != want_title:
             viol = f"<title> reads {tt!r}, the recipe's title is {want_title!r}"
-        elif not st["counted"] and h1 != written:
+        elif PLACEHOLDER_RE.search("".join(x[1] for x in a if x[0] == "text")):
+            viol = "an internal placeholder (%XXXX...%) is visible in the page"
+        elif st.get("heading") is not None and (h1 is None or h1.strip() != ""):
+            viol = f"<h1> of a document with an empty heading reads {h1!r}"
+        elif st.get("heading") is None and not st["counted"] and h1 != written:
             viol = f"<h1> reads {h1!r}, the heading as written is {written!r}"
         elif st["counted"] and (h1 is None or not h1.startswith(want_title)):
             viol = f"<h1> reads {h1!r}, it should start with the title {want_title!r}"
@@ -809,7 +951,9 @@ def standalone_case(inp: Dict[str, Any]) -> Case:
                 coq_in=coqio.lst([coqio.string(want_title)], "str"), coq_out=coqio.lst([coqio.string(raw_title)], "str"),
                 impl={"title": raw_title}, violation=viol, nontrivial=True,
                 tags=["sitesinks:standalone", "sitesinks:standalone-count" if st["counted"] else
-                      "sitesinks:standalone-nonascii-digits" if st["suffix"] else "sitesinks:standalone-plain"])
+                      "sitesinks:standalone-nonascii-digits" if st["suffix"] else
+                      "sitesinks:standalone-empty-title" if st.get("heading") is not None else
+                      "sitesinks:standalone-non-nfc" if st["base"] in NON_NFC_TITLES else "sitesinks:standalone-plain"])
 
 
 def _suites_empty() -> Dict[str, Suite]:
